@@ -6,8 +6,8 @@ checks = []
 claimed = set()
 for mp in sorted(glob.glob(os.path.join(V, "units", "*", "meta.json"))):
     m = json.load(open(mp))
-    if not m.get("claimed", True):
-        continue
+    if not m.get("ready", False):
+        continue  # "ready" is set by hand once the unit is green on /repo and reviewed
     unit = os.path.basename(os.path.dirname(mp))
     pid = m["property"]
     claimed.add(pid)
